@@ -52,6 +52,7 @@ def _register_abstract_classes(repo):
     from .core import absint
     from .rules import model as M
     absint.CLASS_METHODS.clear()
+    absint.CTOR_ATTRS.clear()
     try:
         absint.register_class("Model", repo, M.sim_class(repo))
         absint.register_class("Loss", repo, repo.cls(M.M_LOSS, "BaseLoss"))
